@@ -151,7 +151,22 @@ let finish (db_of : string -> database) (mname : string) (a : acc) =
                   (function UAssign x -> frame_side_ok x && guard_side_ok x | UReject _ -> true)
                   (List.rev a.a_unm) (demanded_unmarshal m)
             in
-            Printf.printf "WIREBAD %s part=c03 || %s\n" label detail
+            Printf.printf "WIREBAD %s part=%s || %s\n" label (if decls_ok mnat m w then "c03" else "decl") detail
+          end;
+          if wiring_ok_c10 mnat m w then incr n_ok_c10
+          else if decls_ok mnat m w then begin
+            incr n_mismatch;
+            let z0 = Z.to_nat (z_of_int 0) in
+            let detail =
+              if not (reset_wiring_ok m w) then
+                "Reset(): " ^ first_diff (resolve_reset w) rstmt_eqb (fun _ -> true) (List.rev a.a_reset) (demanded_reset m.msg_signals z0)
+              else if not w.w_copy then "CopyFrom()/MarshalFrame(): bodies are not { f, _ := o.MarshalFrame(); _ = m.UnmarshalFrame(f); return m } / { return m.Frame(), nil }"
+              else if not (setters_wiring_ok m w) then
+                "setters: " ^ first_diff (resolve_setter w) rsetter_eqb setter_side_ok (List.rev a.a_setters) (demanded_setters m.msg_signals z0)
+              else
+                "getters: " ^ first_diff (resolve_getter w) rgetter_eqb (fun _ -> true) (List.rev a.a_getters) (demanded_getters m.msg_signals z0)
+            in
+            Printf.printf "WIREBAD %s part=c10 || %s\n" label detail
           end)
 
 (* returns true when the line belongs to the wiring stage *)
